@@ -143,6 +143,33 @@ func newWorker(bg *[65536]uint8) *Worker {
 	return w
 }
 
+// warmFork returns a CPU *value* with a past: another CPU object (which stays alive) first executes a few
+// instructions that only read (a load from FFFFh, a 16-bit load from FFFEh, an input, a jump to a high
+// address) and then the given code once; the value returned is a by-value copy of that CPU. Whatever an
+// implementation keeps inside the CPU besides the exported fields - a pointer into its own registers built
+// on first use, a remembered address, a cached decode - is now in a copy at another address, with a history
+// that has nothing to do with the case about to run. A Step depends on States, the pending request, memory
+// and ports only, so none of this may show. poke stores set-up bytes into mem.
+func warmFork(mem z80.Memory, io z80.IO, poke func(a uint16, b ...uint8), st *refz80.State, code []uint8) z80.CPU {
+	warm := &z80.CPU{Memory: mem, IO: io}
+	s := *st
+	s.PC, s.SP = 0xE000, 0xD000
+	toCPU(&s, warm)
+	poke(0xE000, 0x3A, 0xFF, 0xFF, 0x2A, 0xFE, 0xFF, 0xDB, 0xFF, 0xC3, 0xF0, 0xFF)
+	poke(0xFFF0, 0x00)
+	func() {
+		defer func() { recover() }()
+		for i := 0; i < 5; i++ {
+			warm.Step()
+		}
+		s = *st
+		toCPU(&s, warm)
+		poke(s.PC, code...)
+		warm.Step()
+	}()
+	return *warm
+}
+
 // Poke is a set-up store of consecutive bytes.
 type Poke struct {
 	Addr uint16
